@@ -67,7 +67,7 @@ func genC17(r *rand.Rand, id int) *c17Case {
 	cs.ExplicitWH = r.Intn(2) == 0 || cs.Status != 200
 	cs.ContentType = choose(r, c17Types)
 	if r.Intn(6) == 0 {
-		cs.PreEncoding = choose(r, []string{"gzip", "br", "identity", "deflate"})
+		cs.PreEncoding = choose(r, []string{"gzip", "br", "identity", "deflate", "|br", "|gzip"}) // "|x": an empty Content-Encoding line followed by one naming x
 	}
 	nchunks := 1 + r.Intn(4)
 	if r.Intn(10) == 0 {
@@ -144,7 +144,9 @@ func c17Gzip(c *ctx) {
 		if cs.ContentType != "" {
 			w.Header().Set("Content-Type", cs.ContentType)
 		}
-		if cs.PreEncoding != "" {
+		if strings.HasPrefix(cs.PreEncoding, "|") {
+			w.Header()["Content-Encoding"] = []string{"", cs.PreEncoding[1:]}
+		} else if cs.PreEncoding != "" {
 			w.Header().Set("Content-Encoding", cs.PreEncoding)
 		}
 		if cs.SetLength && cs.Status != 204 && cs.Status != 304 {
@@ -282,7 +284,7 @@ func c17Gzip(c *ctx) {
 					continue
 				}
 				bodiless := cs.Method == "HEAD" || ref.Status == 204 || ref.Status == 304
-				labelled := w.Hdr.Get("Content-Encoding") == "gzip" && ref.Hdr.Get("Content-Encoding") == ""
+				labelled := w.Hdr.Get("Content-Encoding") == "gzip" && strings.Join(ref.Hdr.Values("Content-Encoding"), "") == ""
 				acceptsGzip := c17AcceptsGzip(cs.AcceptEnc)
 				if labelled {
 					compressed.Add(1)
@@ -358,7 +360,7 @@ func c17Gzip(c *ctx) {
 					if h == "Content-Type" && cs.ContentType == "" {
 						continue // the handler set no type: which sniffed type is reported is not demanded
 					}
-					if w.Hdr.Get(h) != ref.Hdr.Get(h) {
+					if strings.Join(w.Hdr.Values(h), "|") != strings.Join(ref.Hdr.Values(h), "|") {
 						c.R.Violate("c17:passthrough-header-differs:"+h, fmt.Sprintf("header %s is %q, inner handler's response has %q", h, w.Hdr.Get(h), ref.Hdr.Get(h)), in)
 					}
 				}
